@@ -1382,14 +1382,33 @@ class Parallel(Logger):
     def __exit__(self, exc_type, exc_value, traceback):
         # A generator finalised by another thread leaves the end of its run
         # to a helper thread: let it finish, both would abort the backend.
-        exit_thread = self._detached_exit_thread
-        if exit_thread is not None and exit_thread is not threading.current_thread():
-            exit_thread.join()
-            self._detached_exit_thread = None
+        self._wait_for_detached_exit()
         self._managed_backend = False
         if self.return_generator and self._calling:
             self._abort()
         self._terminate_and_reset()
+
+    def _wait_for_detached_exit(self):
+        """Wait for the helper thread that ends a run whose output generator
+        was finalised by another thread."""
+        exit_thread = self._detached_exit_thread
+        if exit_thread is None or exit_thread is threading.current_thread():
+            return
+        # The wait is bounded: when the generator is finalised (by the garbage
+        # collector) inside a callback of the very run it belongs to, the
+        # helper thread needs the lock that the current thread holds.
+        waited = 0.0
+        while waited < 10:
+            try:
+                exit_thread.join(timeout=0.1)
+            except RuntimeError:
+                # The helper thread is published just before it is started.
+                time.sleep(0.001)
+                continue
+            if not exit_thread.is_alive():
+                self._detached_exit_thread = None
+                return
+            waited += 0.1
 
     def _initialize_backend(self):
         """Build a process or thread pool and return the number of workers"""
@@ -2071,10 +2090,7 @@ class Parallel(Logger):
         # The clean-up of a previous run whose output generator was finalised
         # in another thread is done by a helper thread: wait for it, it would
         # otherwise abort this run and terminate its backend.
-        exit_thread = self._detached_exit_thread
-        if exit_thread is not None and exit_thread is not threading.current_thread():
-            exit_thread.join()
-            self._detached_exit_thread = None
+        self._wait_for_detached_exit()
 
         self._reset_run_tracking()
         try:
